@@ -1,9 +1,83 @@
-(** C01 — caching is transparent.  (Theorems are being added; see DESIGN.md section 5.) *)
+(** C01 — caching is transparent.
+
+    Statements only; proofs in Proofs/{FrameTheorem,SufficientProofs,CleanProofs,CacheSim}.v.
+    [evalN] is the cache-free reference instance of the interpreter of Model/Eval.v (what labrea
+    computes inside [labrea.cache.disabled()]); the cached instance uses the real memo store of
+    Model/EvalRun.v (one association list per MemoryCache object).  All theorems hold for ALL
+    user code [u], ALL resolution budgets, ALL well-formed dictionaries and ALL expressions of
+    the boolean fragment [frag] (see Properties/C03.v); the rest of the expression language is
+    covered by the correspondence and the transparency oracle of harness/props/c01.py. *)
 From Coq Require Import List NArith ZArith Bool.
 Import ListNotations.
-From LV Require Import Model.Base Model.Template Model.Eval Model.Derived Model.EvalRun.
+From LV Require Import Model.Base Model.Template Model.Eval Model.Derived Model.EvalRun
+  Proofs.FrameProofs Proofs.FrameTheorem Proofs.RestrictProofs Proofs.SufficientProofs
+  Proofs.CleanProofs Proofs.FingerprintProofs.
 
-(** Sanity: the D19 witness is computed by the model exactly as the implementation behaves. *)
-Example C01_model_runs : True.
-Proof. exact I. Qed.
-Print Assumptions C01_model_runs.
+Notation evalN u fuel := (eval unit nc_find nc_store cfg_nc u fuel (fun _ _ => true)).
+Notation keysN u fuel := (keys unit nc_find nc_store cfg_nc u fuel (fun _ _ => true)).
+
+(** Second sentence of the property.  A stored value can only be served for a dictionary with
+    the same fingerprint as the one it was computed under; then the cache-free outcomes of the
+    two dictionaries coincide: nothing the result depends on differs.  Side condition: both
+    dictionaries are clean for the cached expression (computed predicate [clean_at]: every
+    present option the evaluation reads is reported by keys(); false exactly in the zones of the
+    known findings D1/D3/D4/D9/D19, refuted below). *)
+Theorem C01_equal_fingerprint_equal_outcome : forall u fuel e o o' f,
+  frag e = true -> wf_dict o = true -> wf_dict o' = true ->
+  clean_at u fuel e o = true -> clean_at u fuel e o' = true ->
+  fingerprintN u fuel e o = Ok f -> fingerprintN u fuel e o' = Ok f ->
+  fst (fst (evalN u fuel e o' tt)) = fst (fst (evalN u fuel e o tt)).
+Proof. exact equal_fingerprint_equal_outcome. Qed.
+Print Assumptions C01_equal_fingerprint_equal_outcome.
+
+(** The same, on the level of what is read: two dictionaries that agree on a key set that
+    (i) is present in one of them and (ii) covers every present option either evaluation reads,
+    evaluate alike. *)
+Theorem C01_same_reported_same_outcome : forall u fuel e o o' K,
+  frag e = true -> wf_dict o = true -> wf_dict o' = true ->
+  good_keys K -> all_present K o ->
+  (forall k, In k K -> lookup k (JObj o') = lookup k (JObj o)) ->
+  RR K o (snd (evalN u fuel e o tt)) -> RR K o' (snd (evalN u fuel e o' tt)) ->
+  fst (fst (evalN u fuel e o' tt)) = fst (fst (evalN u fuel e o tt)).
+Proof. exact same_reported_same_outcome. Qed.
+Print Assumptions C01_same_reported_same_outcome.
+
+(** ** Non-vacuity and the known finding D19 on the real store. *)
+Definition kA : key := [SName 7].
+Definition kB : key := [SName 8].
+Definition u0 : N -> list value -> cres := fun f args => COk (VT f args).
+Definition evalC := eval store mem_find mem_store cfg0 u0 10 (clean_at u0 10).
+
+Definition e_ok : expr :=
+  ESwitch (EOption kA None None)
+          [(VJ (JInt 1), EOption kB None None); (VJ (JInt 2), EValue (VJ (JInt 5)))] None.
+Definition o1 : dict := [(SName 7, JInt 1); (SName 8, JInt 9); (SName 9, JInt 0)].
+Definition o2 : dict := [(SName 9, JInt 4); (SName 8, JInt 9); (SName 7, JInt 1)].
+
+Example C01_hypotheses_satisfiable :
+  frag e_ok = true /\ wf_dict o1 = true /\ wf_dict o2 = true /\
+  clean_at u0 10 e_ok o1 = true /\ clean_at u0 10 e_ok o2 = true /\
+  fingerprintN u0 10 e_ok o1 = Ok [(kA, JInt 1); (kB, JInt 9)] /\
+  fingerprintN u0 10 e_ok o2 = Ok [(kA, JInt 1); (kB, JInt 9)] /\ o1 <> o2.
+Proof. vm_compute. repeat split; congruence. Qed.
+
+(** D19: the cached coalesce over a switch whose dispatch has a default.  {A:1}: member 1 reads
+    A = 1, misses B, is passed over; 6 is stored under the EMPTY fingerprint.  {}: served 6 from
+    the store although the cache-free evaluation yields 5. *)
+Definition e_d19 : expr :=
+  ECoalesce [ESwitch (EOption kA (Some (EValue (VJ (JInt 2)))) None)
+                     [(VJ (JInt 1), EOption kB None None); (VJ (JInt 2), EValue (VJ (JInt 5)))] None;
+             EValue (VJ (JInt 6))].
+
+Theorem C01_transparency_refuted_D19 :
+  exists e o o',
+    frag e = true /\
+    let '(r1, s1, _) := evalC (ECached (CMem 1) e) o [] in
+    let '(r2, _, _) := evalC (ECached (CMem 1) e) o' s1 in
+    r1 = Ok (VJ (JInt 6)) /\ r2 = Ok (VJ (JInt 6)) /\
+    fst (fst (evalN u0 10 e o' tt)) = Ok (VJ (JInt 5)) /\
+    clean_at u0 10 e o = false.
+Proof.
+  exists e_d19, [(SName 7, JInt 1)], []. vm_compute. repeat split; congruence.
+Qed.
+Print Assumptions C01_transparency_refuted_D19.
